@@ -13,8 +13,8 @@ import (
 // Item is something the peer puts on the wire: one record payload of the given type
 // (handshake messages, the ChangeCipherSpec byte, an alert, application data).
 type Item struct {
-	RecType byte
-	Data    []byte
+	RecType   byte
+	Data      []byte
 	RawRecord []byte // if set, these bytes are written as they are (header included), unprotected
 }
 
@@ -90,7 +90,9 @@ var ErrScriptEnded = errors.New("tlcp peer: script ended by CloseAfter")
 
 type AlertError struct{ Level, Desc byte }
 
-func (a AlertError) Error() string { return fmt.Sprintf("tlcp peer: received alert %d/%d", a.Level, a.Desc) }
+func (a AlertError) Error() string {
+	return fmt.Sprintf("tlcp peer: received alert %d/%d", a.Level, a.Desc)
+}
 
 func (p *Peer) send(step string, def []Item) error {
 	items := def
@@ -139,7 +141,9 @@ func (p *Peer) send(step string, def []Item) error {
 	return nil
 }
 
-func (p *Peer) keys() KeyBlock { return DeriveKeyBlock(p.Master, p.ClientRandom, p.ServerRandom, p.Suite) }
+func (p *Peer) keys() KeyBlock {
+	return DeriveKeyBlock(p.Master, p.ClientRandom, p.ServerRandom, p.Suite)
+}
 
 func (p *Peer) isClient() bool { return p.SignCert == nil }
 
